@@ -6,10 +6,16 @@
  *        topoload replay <plan-file> <dump-out>
  * sources-file lines:  X <xml path> | F <fsroot dir> | C <cpuid dir>
  * plan line:  <caseid> <kind> <flags> <filters: 20 chars 0-3 or -> <arg...>
- *   kind S = synthetic string, X = set_xml(path), B = set_xmlbuffer(file contents), F = HWLOC_FSROOT, C = HWLOC_CPUID_PATH
+ *   kind S = synthetic string, X = set_xml(path), B = set_xmlbuffer(file contents), F/G = HWLOC_FSROOT (without/with pci), C = HWLOC_CPUID_PATH,
+ *        R = "<subseed> <srckind> <srcarg>": a derived source with really disallowed PUs / NUMA nodes (harness/derive.h): the source is
+ *            loaded with every type kept, random subsets of its PUs / NUMA nodes are made the allowed sets, it is exported to an XML
+ *            buffer and that buffer is loaded with the flags and filters of the case
+ *   flags may contain IS_THISSYSTEM|THISSYSTEM_ALLOWED_RESOURCES (2|4) on S/X/B/R cases: the allowed sets of the running process
+ *   (cgroup) are then applied to the foreign topology, so every PU / NUMA node the sandbox does not have is disallowed
  */
 #include "dump.h"
 #include "rng.h"
+#include "derive.h"
 #include <errno.h>
 #include <unistd.h>
 #include <stdarg.h>
@@ -48,6 +54,7 @@ static int run_case(const char *caseid, char kind, unsigned long flags, const ch
   case 'S': err = hwloc_topology_set_synthetic(t, arg); break;
   case 'X': err = hwloc_topology_set_xml(t, arg); break;
   case 'B': { size_t len = 0; buf = read_file(arg, &len); if (!buf) err = -1; else err = hwloc_topology_set_xmlbuffer(t, buf, (int) len + 1); break; }
+  case 'R': { int len = 0; buf = drv_make_xml(arg, &len); if (!buf) err = -1; else err = hwloc_topology_set_xmlbuffer(t, buf, len + 1); break; }
   case 'F': setenv("HWLOC_FSROOT", arg, 1); setenv("HWLOC_COMPONENTS", "linux,stop", 1); setenv("HWLOC_DUMPED_HWDATA_DIR", "/var/run/hwloc", 1); break;
   case 'G': setenv("HWLOC_FSROOT", arg, 1); setenv("HWLOC_COMPONENTS", "linux,pci,stop", 1); setenv("HWLOC_DUMPED_HWDATA_DIR", "/var/run/hwloc", 1); break;
   case 'C': setenv("HWLOC_CPUID_PATH", arg, 1); setenv("HWLOC_COMPONENTS", "x86,stop", 1); break;
@@ -65,27 +72,19 @@ static int run_case(const char *caseid, char kind, unsigned long flags, const ch
 }
 
 /* ---- generators ---- */
-struct src { char kind; char path[1000]; };
-static struct src *srcs; static unsigned nsrcs;
-
-static void gen_filters(char *f) {
-  /* default ('-') for most; random for a few types */
-  for (int i = 0; i < 20; i++) f[i] = '-';
-  f[20] = 0;
-  unsigned mode = rng_below(10);
-  if (mode < 3) return;
-  if (mode == 3) { for (int i = 0; i < 20; i++) f[i] = '0'; f[13] = '-'; return; }           /* keep all */
-  if (mode == 4) { for (int i = 0; i < 20; i++) f[i] = '2'; return; }                          /* keep structure */
-  if (mode == 5) { for (int i = 0; i < 20; i++) f[i] = '1'; return; }                          /* keep none (where legal) */
-  int n = 1 + rng_below(6);
-  for (int k = 0; k < n; k++) f[rng_below(20)] = '0' + rng_below(4);
-}
+/* struct src, srcs, nsrcs, pick_src: harness/derive.h */
+static void gen_filters(char *f) { drv_gen_filters(f); }
 static unsigned long gen_flags(void) {
   static const unsigned long bits[] = {1, 8, 64, 128, 256, 512};
   unsigned long fl = 0;
-  if (rng_chance(40)) return rng_chance(50) ? 0 : 1;
-  for (int i = 0; i < 6; i++) if (rng_chance(35)) fl |= bits[i];
+  if (rng_chance(40)) return rng_chance(60) ? 0 : 1;
+  for (int i = 0; i < 6; i++) if (rng_chance(i ? 35 : 25)) fl |= bits[i];
   return fl;
+}
+/* IS_THISSYSTEM (2) alone, or with THISSYSTEM_ALLOWED_RESOURCES (4): only for sources that are not the Linux / x86 back ends */
+static unsigned long gen_thissystem_flags(void) {
+  if (!rng_chance(12)) return 0;
+  return rng_chance(80) ? 6 : 2;
 }
 
 static int app(char *s, int off, int cap, const char *fmt, ...) {
@@ -104,11 +103,11 @@ static void gen_synthetic(char *s, int cap) {
   }
   int numa_mode = rng_below(4); /* 0: none explicit, 1: level, 2: attached, 3: attached at two places */
   if (rng_chance(25)) off = app(s, off, cap, "group:%u ", CNT());
-  if (rng_chance(70)) { off = app(s, off, cap, "pack:%u ", CNT()); if ((numa_mode == 2 || numa_mode == 3) && rng_chance(50)) { off = app(s, off, cap, "[numa%s] ", rng_chance(40) ? "(memory=1GB)" : rng_chance(25) ? "(memorysidecachesize=64MB)" : rng_chance(10) ? "(indexes=1,0)" : ""); if (numa_mode == 2) numa_mode = 0; } }
+  if (rng_chance(70)) { off = app(s, off, cap, "pack:%u ", CNT()); if ((numa_mode == 2 || numa_mode == 3) && rng_chance(50)) { off = app(s, off, cap, "[numa%s] ", drv_gen_numa_attrs(0)); if (numa_mode == 2) numa_mode = 0; } }
   if (rng_chance(20)) off = app(s, off, cap, "die:%u ", CNT());
-  if (numa_mode == 1) off = app(s, off, cap, "numa:%u%s ", CNT(), rng_chance(30) ? "(memory=256MB)" : rng_chance(25) ? "(memory=1GB memorysidecachesize=128MB)" : rng_chance(8) ? "(indexes=1,1)" : "");
+  if (numa_mode == 1) { unsigned c_ = CNT(); off = app(s, off, cap, "numa:%u%s ", c_, drv_gen_numa_attrs(1)); }
   if (rng_chance(15)) off = app(s, off, cap, "group:%u ", CNT());
-  if (rng_chance(40)) { off = app(s, off, cap, "l3:%u%s ", CNT(), rng_chance(30) ? "(size=8MB)" : ""); if (numa_mode >= 2) { off = app(s, off, cap, "[numa] "); numa_mode = 0; } }
+  if (rng_chance(40)) { off = app(s, off, cap, "l3:%u%s ", CNT(), rng_chance(30) ? "(size=8MB)" : ""); if (numa_mode >= 2) { off = app(s, off, cap, "[numa%s] ", rng_chance(50) ? drv_gen_numa_attrs(0) : ""); numa_mode = 0; } }
   if (rng_chance(40)) off = app(s, off, cap, "l2:%u ", CNT());
   if (rng_chance(20)) off = app(s, off, cap, "l1i:%u ", 1u);
   if (rng_chance(30)) off = app(s, off, cap, "l1:%u ", 1u);
@@ -171,18 +170,27 @@ int main(int argc, char **argv) {
     char filters[32], arg[1200], id[32]; char kind;
     unsigned long flags = gen_flags();
     gen_filters(filters);
-    if (nsrcs && rng_chance(45) && !(only && !strcmp(only, "S"))) {
-      struct src *s = &srcs[rng_below(nsrcs)];
+    unsigned w = rng_below(100);
+    if (nsrcs && w < 38 && !(only && !strcmp(only, "S"))) {
+      struct src *s = pick_src();
       kind = s->kind;
       if (kind == 'X' && rng_chance(50)) kind = 'B';
       if (kind == 'F' && rng_chance(30)) kind = 'G';
       strcpy(arg, s->path);
+    } else if (w < 65 && !(only && !strcmp(only, "S"))) {
+      /* derived source with disallowed resources: from a synthetic string (60 %) or from a bundled XML file / snapshot */
+      kind = 'R';
+      if (!nsrcs || rng_chance(60)) { char syn[1100]; gen_synthetic(syn, sizeof syn); snprintf(arg, sizeof arg, "%u S %s", rng_below(1000000), syn); }
+      else { struct src *s = pick_src(); char k = s->kind; if (k == 'F' && rng_chance(30)) k = 'G'; snprintf(arg, sizeof arg, "%u %c %s", rng_below(1000000), k, s->path); }
     } else { kind = 'S'; gen_synthetic(arg, sizeof arg); }
+    if (kind == 'S' || kind == 'X' || kind == 'B' || kind == 'R') flags |= gen_thissystem_flags();
     snprintf(id, sizeof id, "c%lu", i);
     fprintf(fplan, "%s %c %lu %s %s\n", id, kind, flags, filters, arg); fflush(fplan);
     if (run_case(id, kind, flags, filters, arg)) failed++; else loaded++;
   }
   fprintf(fplan, "# loaded %lu failed %lu\n", loaded, failed);
+  fprintf(fplan, "# derived made %lu with_memcache %lu two_level_memcache %lu dropped_pu %lu dropped_node %lu allow_refused %lu v2 %lu retyped_to_group %lu retyped_cpuless %lu\n",
+          drv_made, drv_with_memcache, drv_two_level_memcache, drv_dropped_pu, drv_dropped_node, drv_allow_refused, drv_v2, drv_retyped, drv_retyped_cpuless);
   fclose(fplan); fclose(fdump);
   return 0;
 }
